@@ -7,6 +7,8 @@ import OdxVerif.Proofs.Bits
 namespace OdxVerif.Py
 open OdxVerif.Bits (AllBytes)
 
+instance (bs : Bytes) : Decidable (AllBytes bs) := by unfold AllBytes; infer_instance
+
 theorem pure_eq_ok {α : Type} (a : α) : (pure a : M α) = Except.ok a := rfl
 theorem ok_bind {α β : Type} (a : α) (f : α → M β) : (Except.ok a >>= f) = f a := rfl
 theorem error_bind {α β : Type} (e : Err) (f : α → M β) : (Except.error e >>= f) = Except.error e := rfl
